@@ -456,6 +456,10 @@ class GoCheck:
             print(n)
         for k, txt in self.known_hits:
             print("KNOWN-FINDING: property=%s %s :: %s" % (self.prop, k, txt[:200]))
+        hit = set(k for k, _ in self.known_hits)
+        for k, txt in sorted(self.known.items()):
+            if k not in hit:
+                print("KNOWN-FINDING: property=%s %s :: [listed; its case is not part of the %s tier or did not fail in this run] %s" % (self.prop, k, self.tier, txt[:160]))
         for k, rp in self.violations:
             print("VIOLATION property=%s replay=%s   (%s)" % (self.prop, rp, k))
         print("%s tier=%s tasks=%d paths=%d queries=%d (unsat %d, sat %d, unknown %d) solver=%.1fs validated=%d cex_replayed=%d wall=%.1fs" % (
